@@ -110,6 +110,24 @@ class P:
         kind, name = self.next()
         if kind != "id":
             raise Unsupported("pattern %r" % (name,))
+        if name[0].isupper() and self.at("{"):
+            self.next()
+            fields = []
+            while not self.at("}"):
+                f = self.next()[1]
+                if self.maybe(":"):
+                    fields.append((f, self.let_pattern()))
+                else:
+                    fields.append((f, ("pvar", f)))
+                if not self.maybe(","):
+                    break
+            self.eat("}")
+            return ("pstruct", name, fields)
+        if name[0].isupper() and self.at("("):
+            self.next()
+            inner = self.let_pattern()
+            self.eat(")")
+            return ("pctor", name, inner)
         return ("pvar", name)
 
     # block := '{' stmt* [expr] '}'
@@ -154,7 +172,7 @@ class P:
                 stmts.append(("assign", e[1], rhs))
             elif self.at("}"):
                 tail = e
-            elif e[0] in ("if", "match", "block"):
+            elif e[0] in ("if", "iflet", "match", "block"):
                 stmts.append(("expr", e))
             else:
                 raise Unsupported("statement: unexpected %r" % (self.peek()[1],))
@@ -276,6 +294,8 @@ class P:
             if v == "|":
                 while not self.at("|"):
                     pat = self.let_pattern()
+                    if pat == ("ptuple", []):
+                        pat = ("pvar", "_")
                     if pat[0] != "pvar":
                         raise Unsupported("closure parameter pattern")
                     if self.maybe(":"):
@@ -288,6 +308,20 @@ class P:
                 self.skip_type()
             body = self.block() if self.at("{") else self.expr()
             return ("closure", params, body)
+        if v == "if" and self.at("let"):
+            self.next()
+            ctor = self.next()[1]
+            var = None
+            if self.maybe("("):
+                var = self.next()[1]
+                self.eat(")")
+            self.eat("=")
+            scrut = self.expr(nostruct=True)
+            th = self.block()
+            el = None
+            if self.maybe("else"):
+                el = ("block", [], self.primary(nostruct)) if self.at("if") else self.block()
+            return ("iflet", ctor, var, scrut, th, el)
         if v == "if":
             cond = self.expr(nostruct=True)
             th = self.block()
@@ -525,6 +559,8 @@ class Tr:
                 return self.bind(pat[1][i], t[i][0], t[i][1], envi, lambda e2: go(i + 1, e2))
             return go(0, env)
         if pat[0] == "parray":
+            if s == "tuple" and len(t) == len(pat[1]):
+                return self.bind(("ptuple", pat[1]), t, s, env, cont)
             if s == "sx2" and len(pat[1]) == 2:
                 return self.bind(pat[1][0], "(fst %s)" % t, "sx", env,
                                  lambda e2: self.bind(pat[1][1], "(snd %s)" % t, "sx", e2, cont))
@@ -532,6 +568,28 @@ class Tr:
                 return self.bind(pat[1][0], "(get %s 0)" % t, "num", env,
                                  lambda e2: self.bind(pat[1][1], "(get %s 1)" % t, "num", e2, cont))
             self.err("array pattern against a %s" % s)
+        if pat[0] == "pstruct":
+            _, name, fields = pat
+            if name == "BOpinion" and s == "bop":
+                fmap = {"simplex": ("(sx_of %s)" % t, "sx"), "base_rate": ("(ba %s)" % t, "num")}
+            elif name == "Opinion1d" and s == "op2":
+                fmap = {"simplex": ("(fst %s)" % t, "spx2"), "base_rate": ("(snd %s)" % t, "list2")}
+            else:
+                self.err("struct pattern %s against a %s" % (name, s))
+
+            def go(i, envi):
+                if i == len(fields):
+                    return cont(envi)
+                f, sub = fields[i]
+                if f not in fmap:
+                    self.err("field %s in a pattern of %s" % (f, name))
+                return self.bind(sub, fmap[f][0], fmap[f][1], envi, lambda e2: go(i + 1, e2))
+            return go(0, env)
+        if pat[0] == "pctor":
+            _, name, inner = pat
+            if name == "BSimplex" and s == "sx":
+                return self.bind(inner, "([sx_b %s; sx_d %s], sx_u %s)" % (t, t, t), "spx2", env, cont)
+            self.err("pattern %s(..) against a %s" % (name, s))
         self.err("pattern %s" % pat[0])
 
     def stmts(self, stmts, tail, env, k):
@@ -579,6 +637,8 @@ class Tr:
                 # a nested block statement: its bindings are local, the rest continues in the outer environment
                 return self.stmts(list(e[1]) + ([("expr", e[2])] if e[2] is not None else []), None, dict(env),
                                   lambda t, s, _e: self.stmts(rest, tail, env, k))
+            if e[0] == "iflet":
+                return self.iflet(e, env, None, (rest, tail, env, k))
             if e[0] == "if" and not self.is_value_if(e):
                 # statement-if: the rest of the block is the continuation of every branch
                 _, cond, th, el = e
@@ -608,6 +668,34 @@ class Tr:
             g += "'"
         return g
 
+    def tuple_valued(self, e):
+        b = e[2]
+        while b is not None and b[2] is not None and b[2][0] == "if" and not b[1]:
+            b = b[2][2]
+        return b is not None and b[2] is not None and b[2][0] == "tuple" and len(b[2][1]) > 0
+
+    def iflet(self, e, env, k, stmt):
+        """`if let Err(e) = check(..) { .. }` / `if let Ok(..) = ..` on a Result<(), E> (a bool in the model)"""
+        _, ctor, var, scrut, th, el = e
+        if stmt is None:
+            self.err("if let in a value position")
+        rest, tail, env0, kk = stmt
+
+        def after(t, s, envb):
+            return self.stmts(rest, tail, env0, kk)
+
+        def go(a, s):
+            if s != "res" or ctor not in ("Err", "Ok"):
+                self.err("if let %s(..) on a %s" % (ctor, s))
+            env2 = dict(env)
+            if var and var != "_":
+                env2[var] = ("tt", "errval" if ctor == "Err" else "unit")
+            thb = self.block(th, env2, after)
+            elb = self.block(el if el is not None else ("block", [], None), env, after)
+            return "if %s\n  then %s\n  else %s" % (a, elb, thb) if ctor == "Err" else \
+                "if %s\n  then %s\n  else %s" % (a, thb, elb)
+        return self.expr(scrut, env, go)
+
     def is_value_if(self, e):
         """an if whose branches all end in an expression (no assignments, no returns)"""
         def blk_val(b):
@@ -625,6 +713,8 @@ class Tr:
             if e[1] not in NUM:
                 self.err("numeric literal %s" % e[1])
             return k(NUM[e[1]], "num")
+        if t == "var" and e[1] in ("true", "false") and e[1] not in env:
+            return k(e[1], "bool")
         if t == "var":
             if e[1] not in env or env[e[1]][1] == "undef":
                 self.err("unknown or unset variable %s" % e[1])
@@ -665,6 +755,24 @@ class Tr:
                 return self.expr(obj, env, lambda a, s: self.unwrap(a, s, k, stmt))
             if name in ("into", "clone", "to_owned", "copied") and not args:
                 return self.expr(obj, env, k)
+            if name == "map" and len(args) == 1 and args[0][0] == "closure":
+                params, body, _ = args[0][1], args[0][2], None
+                params, body = args[0][1], args[0][2]
+
+                def mapped(a, s):
+                    if s == "res" and len(params) == 1:
+                        env2 = dict(env)
+                        env2[params[0]] = ("tt", "unit")
+
+                        def kb(tm, sv, _e=None):
+                            if sv not in ("bop", "sx"):
+                                self.err("Result::map to a %s" % sv)
+                            return k("(if %s then Some %s else None)" % (a, tm), "opt_" + sv)
+                        if body[0] == "block":
+                            return self.block(body, env2, kb)
+                        return self.expr(body, env2, lambda tm, sv: kb(tm, sv))
+                    self.err("map on a %s" % s)
+                return self.expr(obj, env, mapped)
             return self.expr(obj, env, lambda a, s: self.method(a, s, name, args, env, k))
         if t == "try":
             return self.expr(e[1], env, lambda a, s: self.unwrap(a, s, k, stmt))
@@ -686,6 +794,13 @@ class Tr:
                 f = "is_zero" if b == "zero" else "is_one"
                 return self.expr(args[0], env, lambda a, s: k("(%s %s)" % (f, a), "bool") if s == "num" else self.err("ulps_eq! on a %s" % s))
             return self.expr(args[1], env, second)
+        if t == "iflet":
+            return self.iflet(e, env, k, stmt)
+        if t == "if" and e[3] is not None and self.is_value_if(e) and self.tuple_valued(e):
+            # the branches yield tuples (destructured by the enclosing let): the continuation goes into both
+            _, cond, th, el = e
+            return self.expr(cond, env, lambda c, s: "if %s\n  then %s\n  else %s" % (
+                c, self.block(th, env, lambda tm, sv, _e: k(tm, sv)), self.block(el, env, lambda tm, sv, _e: k(tm, sv))))
         if t == "if":
             _, cond, th, el = e
             if el is None or not self.is_value_if(e):
@@ -724,11 +839,12 @@ class Tr:
         if t == "struct":
             return self.struct(e, env, k)
         if t == "array":
-            if len(e[1]) != 2:
-                self.err("array literal of length %d" % len(e[1]))
-            return self.expr(e[1][0], env, lambda a, sa: self.expr(e[1][1], env, lambda b, sb: (
-                k("%s, %s" % (a, b), "pair") if (sa, sb) == ("num", "num") else
-                k("(%s, %s)" % (a, b), "sx2") if (sa, sb) == ("sx", "sx") else self.err("array of %s, %s" % (sa, sb)))))
+            # an array literal: a tuple of its elements (consumers that need a Gallina list / pair build it)
+            def goa(i, acc):
+                if i == len(e[1]):
+                    return k(acc, "tuple")
+                return self.expr(e[1][i], env, lambda a, s: goa(i + 1, acc + [(a, s)]))
+            return goa(0, [])
         if t == "str":
             return k('""', "str")
         self.err("expression form %s" % t)
@@ -853,8 +969,9 @@ class Tr:
                 return k("true", "res")
             if s in ("bop", "sx"):
                 return k("Some %s" % t, "opt_" + s)
-        if name == "new_unchecked" and len(a) == 2 and a[0][1] == "pair" and a[1][1] == "num":
-            return k("(%s, %s)" % (a[0][0], a[1][0]), "sx")
+        if name == "new_unchecked" and len(a) == 2 and a[0][1] == "tuple" and len(a[0][0]) == 2 and a[1][1] == "num" \
+                and all(s_ == "num" for _, s_ in a[0][0]):
+            return k("(%s, %s, %s)" % (a[0][0][0][0], a[0][0][1][0], a[1][0]), "sx")
         if name == "new_unchecked" and nums(4) and len(a) == 4:
             return k("(mkbop %s %s %s %s)" % tuple(x for x, _ in a), "bop")
         if name == "new_unchecked" and nums(3) and len(a) == 3:
@@ -886,9 +1003,9 @@ class Tr:
             def done2(vals):
                 v = dict(zip(names, vals))
                 (sx_, ss), (a, sa) = v["simplex"], v["base_rate"]
-                if (ss, sa) != ("spx2", "pair"):
+                if ss != "spx2" or sa != "tuple" or len(a) != 2 or any(s_ != "num" for _, s_ in a):
                     self.err("Opinion1d fields of sorts %s, %s" % (ss, sa))
-                return k("(%s, [%s])" % (sx_, a.replace(", ", "; ")), "op2")
+                return k("(%s, [%s; %s])" % (sx_, a[0][0], a[1][0]), "op2")
             return self.call_args([fd[n] for n in names], env, done2)
         if path[-1] not in ("Self", "BOpinion") or sorted(names) != ["base_rate", "simplex"]:
             self.err("struct literal %s {%s}" % ("::".join(path), ", ".join(names)))
